@@ -462,6 +462,7 @@ func checkAADAgreement(c *Ctx) {
 	open, p2 := shape(c.MustFunc("Memberlist.decryptRemoteState"), "decryptPayload", 2)
 	_ = p2
 	checkEncryptOverhead(c, "C12")
+	checkUnpadAcceptsPadding(c, "C12")
 	checkNarrowingFor(c, "C12")
 	checkAADConcat(c, "C12")
 	c.Check("C12/aad/stream", rule, p1, seal != "" && seal == open && strings.HasPrefix(seal, "appendBytes(HDR.Bytes()[:5],[]byte(streamLabel))"), "seal authenticates "+seal+", open authenticates "+open)
@@ -652,4 +653,47 @@ func cubeCompatible(a, b map[string]string) bool {
 		}
 	}
 	return true
+}
+
+// checkUnpadAcceptsPadding: the padding remover accepts every pad length the
+// padder can produce (1 .. block size, whole block included - the padder adds a
+// full block to block-aligned input) on a buffer long enough to hold it: each
+// rejecting exit has established that the buffer is empty, the pad length is
+// below 1, above the block size, or above the buffer length. A remover that
+// rejects a legal pad drops one payload size in sixteen, with everything
+// packed into that packet.
+func checkUnpadAcceptsPadding(c *Ctx, prop string) {
+	rule := "the padding remover rejects only what the padder never writes: an empty buffer, a pad length below 1, above the block size, or above the buffer length (a full block of padding is legal)"
+	c.Rule(rule)
+	fn := c.MustFunc("pkcs7decodeChecked")
+	x := c.flow(fn, map[string]string{})
+	nRej, nAcc := 0, 0
+	for _, ex := range x.Exits {
+		if len(ex.Ret) != 2 {
+			continue
+		}
+		if untok(ex.Ret[1]) == "nil" {
+			nAcc++
+			continue
+		}
+		nRej++
+		just := ""
+		for k, v := range ex.Cube {
+			u := untok(k)
+			pad := strings.Contains(u, "buf[")
+			switch {
+			case u == "len(buf)>=1" && v == "F":
+				just = "empty"
+			case pad && strings.HasSuffix(u, ">=1") && !strings.HasPrefix(u, "cmp(") && v == "F":
+				just = "pad<1"
+			case pad && strings.HasPrefix(u, "cmp(blockSize,") && v == "LT", pad && strings.HasPrefix(u, "cmp(") && strings.HasSuffix(u, ",blockSize)") && v == "GT":
+				just = "pad>block"
+			case pad && strings.HasPrefix(u, "cmp(") && strings.HasSuffix(u, ",len(buf))") && v == "GT", pad && strings.HasPrefix(u, "cmp(len(buf),") && v == "LT":
+				just = "pad>len"
+			}
+		}
+		c.Check(prop+"/unpad/accepts-all-padding", rule, ex.Pos, just != "", "the remover rejects at "+c.P.Pos(ex.Pos)+" a buffer whose pad length may be legal {"+untok(gea.CubeString(ex.Cube))+"}")
+	}
+	c.Floor("rejecting exits of the padding remover", nRej, 2)
+	c.Floor("accepting exits of the padding remover", nAcc, 1)
 }
